@@ -517,7 +517,13 @@ func castsFile(d absd.Desc) string {
 		}
 		return "string"
 	}
-	for _, m := range d.Msgs {
+	msgs := append([]absd.Msg{}, d.Msgs...)
+	for _, dep := range d.Deps {
+		if dep.Share {
+			msgs = append(msgs, dep.Msgs...)
+		}
+	}
+	for _, m := range msgs {
 		for _, f := range m.Fields {
 			for _, n := range []string{f.Cast, f.Custom} {
 				if n == "" || strings.Contains(n, ".") || seen[n] {
